@@ -35,6 +35,8 @@ CLAIMS = {
          "Every cell of small trees exhaustively and random cells up to 60-bit indices: bijection, parent/child/octant, interaction and neighbour lists as multisets with position codes, per-cell and per-group builders with both filters.", "3/C11"),
  "C12": ("property-based testing over generated execute() histories (ordered flag partitions x working level) with per-call write-set and operator oracles",
          "Staged histories must only run the requested operators at working levels, write only their outputs, and end in the state of one full run and of the model.", "3/C12"),
+ "C13": ("stateful property-based testing: generated move/rebuild/execute histories against a model of (index, data row, accumulated result) with the structure, construction and value oracles after every step",
+         "Histories of in-place position edits, rebuild and execution; identity, data and accumulated results must survive, expansions reset, grouping equal to a fresh build, one more full interaction per execute.", "3/C13"),
  "C14": ("property-based testing: stateful operation sequences on 12 memory-block layouts with address-range/overlap invariants and byte-copy round trips; byte-copied tree groups compared through accessors and operators",
          "Generated layouts, counts around alignment boundaries and op sequences; invariants on every reachable element address; raw views of byte copies must be equivalent for accessors and for kernel operators.", "3/C14"),
  "C16": ("property-based testing: lookup results against a definitional Morton model, exhaustive index ranges on small levels",
